@@ -32,7 +32,7 @@ ASSUMPTIONS = [
     "checks it for closure)",
     "independent readers vf/refsem/reader.py (self-tested on fixtures)",
 ]
-REQUIRED = ["parsed_and_rendered_ok", "nc_wildcard", "named_port", "foreign_spelling",
+REQUIRED = ["parsed_and_rendered_ok", "nc_wildcard", "named_port", "foreign_spelling", "entry_point_ok",
             "nxos_multi_eq_refused", "standard_ok"]
 
 
@@ -112,7 +112,7 @@ def replay(case, ctx):
                     _unmask(exp["dport"]), S.flags_mask(exp["flags"]), exp["seq"],
                     tuple(exp["logs"]), tuple(exp["flags"]), exp["sgroup"], exp["dgroup"])
         check_text(case["text"], case["cfg"], rule, ctx, expr=(exp.get("sexpr"), exp.get("dexpr")),
-                   acl_type=case.get("type", "extended"))
+                   acl_type=case.get("type", "extended"), via=case.get("via", "Ace"))
     elif case["kind"] == "reject":
         _expect_reject(case["text"], case["cfg"], ctx)
 
@@ -157,15 +157,58 @@ def _nets(ipnets):
     return {(int(n.network_address), n.prefixlen) for n in ipnets}
 
 
-def check_text(text, cfg, rule, ctx, expr=(None, None), acl_type="extended"):
-    """Parse `text` under `cfg`, compare fields with `rule`, re-read the rendering."""
-    from cisco_acl import Ace
+VIAS = ["AceGroup", "Acl", "Acl.items", "AceGroup.items", "acls", "acls.group_by", "aces",
+        "aces.group_by", "data", "copy"]
 
+
+def _parse_via(text, cfg, via, acl_type="extended"):
+    """The Ace object for one line through one of the entry points that read ACE lines."""
+    import cisco_acl
+    from cisco_acl import Ace, AceGroup, Acl
+
+    plat = cfg["platform"]
+    head = f"ip access-list {acl_type} A" if plat == "ios" else "ip access-list A"
+
+    def only(items):
+        aces = [o for o in items if isinstance(o, Ace)]
+        if len(aces) != 1:
+            raise ValueError(f"{len(aces)} entries built from one line")
+        return aces[0]
+
+    if via == "Ace":
+        return Ace(text, **cfg)
+    if via == "AceGroup":
+        return only(AceGroup(text, **cfg).items)
+    if via == "Acl":
+        return only(Acl(f"{head}\n {text}", **cfg).items)
+    if via == "Acl.items":
+        return only(Acl(name="A", items=[text], **cfg).items)
+    if via == "AceGroup.items":
+        return only(AceGroup(items=[text], **cfg).items)
+    if via == "acls":
+        return only(cisco_acl.acls(f"{head}\n {text}\n", **cfg)[0].items)
+    if via == "acls.group_by":
+        return only(cisco_acl.acls(f"{head}\n remark = h\n {text}\n", group_by="= ", **cfg)[0].items[0].items)
+    if via == "aces":
+        return only(cisco_acl.aces(f"{head}\n {text}\n", **cfg))
+    if via == "aces.group_by":
+        return only(cisco_acl.aces(f"{head}\n remark = h\n {text}\n", group_by="= ", **cfg)[0].items)
+    if via == "data":
+        return Ace(**Ace(text, **cfg).data())
+    if via == "copy":
+        return Ace(text, **cfg).copy()
+    raise KeyError(via)
+
+
+def check_text(text, cfg, rule, ctx, expr=(None, None), acl_type="extended", via="Ace"):
+    """Parse `text` under `cfg`, compare fields with `rule`, re-read the rendering."""
     ctx.ev()
     case = _case(text, cfg, rule, expr, acl_type)
+    if via != "Ace":
+        case["via"] = via
     try:
-        ace = Ace(text, **cfg)
-    except (ValueError, TypeError) as ex:
+        ace = _parse_via(text, cfg, via, acl_type)
+    except (ValueError, TypeError, IndexError) as ex:
         ctx.viol("Ace:valid_line_rejected", case, repr(ex), "accepted")
         return None
     bad = {}
@@ -277,7 +320,7 @@ def _spell_lists(acex, fields, cfg):
     return dims
 
 
-def _emit(acex, cfg, sp, spacing, ctx, nontrivial=True):
+def _emit(acex, cfg, sp, spacing, ctx, nontrivial=True, via_all=False):
     plat, ver = cfg["platform"], cfg["version"]
     text = acex.text(plat, ver, sp, spacing)
     rule = acex.rule(resolve_groups=False)
@@ -297,6 +340,11 @@ def _emit(acex, cfg, sp, spacing, ctx, nontrivial=True):
         if not lst[idx][1]:
             ctx.out("foreign_spelling")
     check_text(text, cfg, rule, ctx, expr)
+    if via_all and not (acex.src.group or acex.dst.group):
+        # the same line through every other entry point that reads ACE lines
+        for via in VIAS:
+            if check_text(text, cfg, rule, ctx, expr, via=via) is not None:
+                ctx.out("entry_point_ok")
 
 
 def _dev(unit, ctx):
@@ -320,7 +368,7 @@ def _dev(unit, ctx):
         keys = list(dims)
         for choice in product(*[dims[k] for k in keys]):
             sp = dict(zip(keys, choice))
-            _emit(acex, cfg, sp, "single", ctx)
+            _emit(acex, cfg, sp, "single", ctx, via_all=len(fields) == 1 and not any(choice))
             n += 1
         if len(fields) == 1:
             for spacing in G.SPACING[1:]:
